@@ -2,7 +2,7 @@
 From Coq Require Import String.
 From Coq Require Import List Strings.Byte NArith ZArith Bool Arith.
 Require Import Bytes Show Tables Codec CodecProofs Chunk ChunkProofs Range RangeProofs DecProofs
-               Ser SerSkel SerProofs BodyStream BodyStreamProofs HeaderScan ReqHead RespHead RespHeadProofs.
+               Ser SerSkel SerProofs BodyStream BodyStreamProofs TrailerKeys HeaderScan ReqHead RespFrame RespHead RespHeadProofs.
 Import ListNotations.
 
 (* the request header block the client writes (regenerated skeleton of RequestHeader.AppendBytes):
@@ -67,8 +67,30 @@ Theorem C11_response_content_length_reads : forall n : Z, (0 <= n < two63)%Z ->
   rframe_of [(bytestr_StrContentLength, show_Z n)] = (n, false).
 Proof. exact resp_content_length_reads. Qed.
 
+(* Connection persistence as the client takes it from a response head (ResponseHeader.ConnectionClose, compared
+   with the code by c11.resphead): a body that is delimited by the end of the connection never leaves the
+   connection reusable; a version other than HTTP/1.1 without a keep-alive token closes; a final
+   "Connection: close" closes whatever came before - for EVERY field list, status and framing. *)
+Theorem C11_until_close_body_closes : forall h11 status fs, must_skip_content_length status = false ->
+  no_keep_alive fs -> resp_close h11 status (-2)%Z fs = true.
+Proof. exact resp_close_until_close. Qed.
+Theorem C11_http10_without_keep_alive_closes : forall status clen fs, no_keep_alive fs -> resp_close false status clen fs = true.
+Proof. exact resp_close_http10. Qed.
+Theorem C11_final_connection_close_closes : forall h11 status clen fs name,
+  name <> [] -> ci_compare name bytestr_StrConnection = true ->
+  resp_close h11 status clen (fs ++ [(name, bytestr_StrClose)]) = true.
+Proof. exact resp_close_last_field. Qed.
+Print Assumptions C11_final_connection_close_closes.
+
+Example C11_persistence_nonvacuous :
+  resp_close true 200 5 [(B "Connection", B "keep-alive")] = false /\
+  resp_close false 200 5 [(B "Connection", B "x, Keep-Alive")] = false /\
+  resp_close false 200 5 [] = true /\ resp_close true 200 (-2) [] = true /\ resp_close true 204 (-2) [] = false /\
+  no_keep_alive [(B "Connection", B "upgrade")].
+Proof. repeat split; try (vm_compute; reflexivity). intros st H. vm_compute in H. inversion H; subst. vm_compute. reflexivity. Qed.
+
 Example C11_resphead_nonvacuous :
   resp_head [B "HTTP/1.1 404 Not Found" ++ CRLF ++ B "content-length: 5" ++ CRLF ++ B "Transfer-Encoding: chunked" ++ CRLF ++ CRLF ++ B "x"] =
-  B "OK 1 404 -1 73" /\
+  B "OK 1 404 -1 73 0" /\
   resp_head [B "HTTP/1.1 200 OK" ++ CRLF ++ B "Content-Length: 12x" ++ CRLF ++ CRLF] = B "BAD length".
 Proof. vm_compute. split; reflexivity. Qed.
